@@ -75,6 +75,7 @@ pub fn check_c06(e: &Emitted) -> (Option<Violation>, Option<Parsed>) {
     let regime = size_regime(e.before.len(), e.pdu.len());
     let site = |what: &str| format!("{}:{}:{}", e.call.name(), what, regime);
     let v = |clause: &'static str, what: &str, detail: String| Some(Violation::new("C06", clause, site(what), detail));
+    let mut tail_v: Option<Violation> = None;
     if n > e.after.len() {
         return (v("C06.len_exceeds_buffer", e.res.class(), format!("reported {} > buffer {}", n, e.after.len())), None);
     }
@@ -82,8 +83,10 @@ pub fn check_c06(e: &Emitted) -> (Option<Violation>, Option<Parsed>) {
         return (v("C06.len_too_small", e.res.class(), format!("reported {}", n)), None);
     }
     if e.after[n..] != e.before[n..] {
+        // the packet itself may still be perfectly well-formed: go on, and report this (a C06 matter only: no other
+        // property speaks about the buffer behind the packet) if nothing else is wrong with the packet
         let first = (n..e.after.len()).find(|i| e.after[*i] != e.before[*i]).unwrap();
-        return (v("C06.wrote_beyond_reported_length", e.res.class(), format!("reported {} but byte {} modified (buffer {})", n, first, e.after.len())), None);
+        tail_v = v("C06.wrote_beyond_reported_length", e.res.class(), format!("reported {} but byte {} modified (buffer {})", n, first, e.after.len()));
     }
     let pkt = &e.after[..n];
     let (kind, lt, gl) = wire::header(pkt).unwrap();
@@ -109,7 +112,7 @@ pub fn check_c06(e: &Emitted) -> (Option<Violation>, Option<Parsed>) {
     // mandatory extension data beyond 255 bytes can not be described to any receiver-side manager (u8 length): the
     // layout of such a packet is undecided here; everything above (length, buffer, header) has been checked
     if e.exts.iter().any(|(id, d)| *id < 0x100 && d.len() > 255) {
-        return (None, None);
+        return (tail_v, None);
     }
     let mut table = sender_table(e.exts, e.ptype);
     // a chain using one mandatory id with two different data lengths (or both as final and non-final)
@@ -120,7 +123,7 @@ pub fn check_c06(e: &Emitted) -> (Option<Violation>, Option<Parsed>) {
             if *id < 0x100 {
                 let m = if i + 1 == n && *id == e.ptype { MExt::Final(d.len() as u8) } else { MExt::NonFinal(d.len() as u8) };
                 if table.lookup(*id) != m {
-                    return (None, None);
+                    return (tail_v, None);
                 }
             }
         }
@@ -203,7 +206,7 @@ pub fn check_c06(e: &Emitted) -> (Option<Violation>, Option<Parsed>) {
             }
         }
     }
-    (None, Some(p))
+    (tail_v, Some(p))
 }
 
 /// C18: preview vs actual. `substitution_possible`: the harness cannot exclude a re-use substitution.
